@@ -176,6 +176,114 @@ def oracle_represent_fine(hs):
     return worst
 
 
+
+# ----------------------------------------------------------------------------- call-history stream (HSplineFunc / BSplineFunc)
+def cox_all(t, p, x):
+    """values of all B-splines of degree p with knot array t at the points x (own Cox-de Boor, floats), shape (len(x), n)"""
+    t = np.asarray(t, float); x = np.asarray(x, float)
+    B = np.zeros((len(t) - 1, len(x)))
+    for i in range(len(t) - 1):
+        if t[i] < t[i + 1]:
+            B[i] = (t[i] <= x) & (x < t[i + 1])
+    for q in range(1, p + 1):
+        Bn = np.zeros((len(t) - 1 - q, len(x)))
+        for i in range(len(t) - 1 - q):
+            if t[i + q] > t[i]:
+                Bn[i] += (x - t[i]) / (t[i + q] - t[i]) * B[i]
+            if t[i + q + 1] > t[i + 1]:
+                Bn[i] += (t[i + q + 1] - x) / (t[i + q + 1] - t[i + 1]) * B[i + 1]
+        B = Bn
+    return B.T
+
+
+def tp_eval(kvs, coeffs, grid):
+    """tensor-product spline on a grid from own Cox-de Boor collocation matrices"""
+    out = np.asarray(coeffs, float).reshape([kv.numdofs for kv in kvs])
+    for d, (kv, g) in enumerate(zip(kvs, grid)):
+        C = cox_all(kv.kv, kv.p, g)
+        out = np.moveaxis(np.tensordot(C, out, axes=(1, d)), 0, d)
+    return out
+
+
+def history_checks(hs, desc, rng):
+    """A function object must denote the function of its CURRENT data after any call history: evaluate all routes, edit the
+    coefficient array in place / by rebinding, toggle truncate, evaluate again; compare with a fresh object built from the
+    current data and (values) with own Cox-de Boor evaluation of represent_fine(current truncate) @ current coefficients."""
+    from pyiga import bspline, hierarchical
+    out = []
+    L = hs.numlevels
+    grid = grid_for(hs)
+    if hs.dim >= 2:
+        grid = [g[:: max(1, len(g) // 9)] for g in grid]
+    fk = hs.knotvectors(L - 1)
+    pts = [tuple(float(g[int(rng.integers(0, len(g)))]) for g in grid) for _ in range(3)]
+    u = rng.integers(-8, 9, size=hs.numdofs).astype(float)
+    f = hierarchical.HSplineFunc(hs, u)
+    ops = []
+
+    def check(step):
+        cur = np.array(f.coeffs, dtype=float)
+        fresh = hierarchical.HSplineFunc(hs, cur.copy(), truncate=f.truncate)
+        ref = tp_eval(fk, hs.represent_fine(truncate=f.truncate) @ cur, grid)
+        mag = max(1.0, float(np.abs(ref).max()))
+        tol = 256 * EPS * mag * (L + 1)
+        for name in ('grid_eval', 'grid_jacobian', 'grid_hessian'):
+            a = getattr(f, name)(grid); b = getattr(fresh, name)(grid)
+            scale = max(1.0, float(np.abs(b).max()))
+            if a.shape != b.shape or np.abs(a - b).max() > 256 * EPS * scale * (L + 1):
+                return ('HSplineFunc.%s after the call history %s differs from a fresh HSplineFunc built from the current coefficients '
+                        '(truncate=%s) by %.3e' % (name, ops, f.truncate, np.abs(a - b).max() if a.shape == b.shape else np.inf))
+            if name == 'grid_eval' and np.abs(a - ref).max() > tol * 4:
+                return ('HSplineFunc.grid_eval after the call history %s differs from the Cox-de Boor evaluation of '
+                        'represent_fine @ coeffs by %.3e' % (ops, np.abs(a - ref).max()))
+        for pt in pts:
+            a = f(*reversed(pt)); b = fresh(*reversed(pt))
+            if abs(a - b) > 256 * EPS * mag * (L + 1):
+                return 'HSplineFunc.eval%r after the call history %s = %r, fresh object gives %r' % (pt, ops, a, b)
+        return None
+
+    def step(op, fn):
+        fn(); ops.append(op)
+        r = check(op)
+        if r:
+            out.append(('hsplinefunc-call-history', r, {'case': desc, 'ops': list(ops), 'failing_step': len(ops) - 1}))
+        return r is None
+
+    try:
+        ok = step('construct+evaluate', lambda: None)
+        seq = [('u *= 2 (caller array, in place)', lambda: u.__imul__(2.0)),
+               ('u[:] = new values (in place)', lambda: u.__setitem__(slice(None), rng.integers(-8, 9, size=hs.numdofs).astype(float))),
+               ('f.coeffs[:] = new values (in place)', lambda: f.coeffs.__setitem__(slice(None), rng.integers(-8, 9, size=hs.numdofs).astype(float))),
+               ('f.truncate toggled', lambda: setattr(f, 'truncate', not f.truncate)),
+               ('f.coeffs[0] += 1 (in place)', lambda: f.coeffs.__setitem__(0, f.coeffs[0] + 1.0)),
+               ('f.coeffs = new array (rebound)', lambda: setattr(f, 'coeffs', rng.integers(-8, 9, size=hs.numdofs).astype(float))),
+               ('f.coeffs *= -1 (in place, after rebinding)', lambda: f.coeffs.__imul__(-1.0)),
+               ('f.truncate toggled back', lambda: setattr(f, 'truncate', not f.truncate))]
+        for (op, fn) in seq:
+            if not ok:
+                break
+            ok = step(op, fn)
+        # level functions (BSplineFunc): edit the coefficient array in place
+        lf = hs.coeffs_to_levelwise_funcs(rng.integers(-8, 9, size=hs.numdofs).astype(float), truncate=False)
+        for l, g in enumerate(lf):
+            gl = grid
+            v0 = g.grid_eval(gl); g.grid_jacobian(gl)
+            g.coeffs[...] = g.coeffs * 3.0 + 1.0
+            fresh = bspline.BSplineFunc(hs.knotvectors(l), np.array(g.coeffs))
+            ref = tp_eval(hs.knotvectors(l), g.coeffs, gl)
+            for name in ('grid_eval', 'grid_jacobian', 'grid_hessian'):
+                a = getattr(g, name)(gl); b = getattr(fresh, name)(gl)
+                scale = max(1.0, float(np.abs(b).max()))
+                if np.abs(a - b).max() > 256 * EPS * scale * 4 or (name == 'grid_eval' and np.abs(a - ref).max() > 256 * EPS * scale * 4):
+                    out.append(('bsplinefunc-call-history', 'level-%d BSplineFunc.%s after an in-place edit of its coefficients differs from a '
+                                'fresh object / Cox-de Boor by %.3e' % (l, name, max(np.abs(a - b).max(), np.abs(a - ref).max() if name == 'grid_eval' else 0.0)),
+                                {'case': desc, 'ops': ['evaluate', 'coeffs[...] = 3*coeffs+1', name]}))
+                    break
+    except Exception as ex:
+        out.append(('call-history-raises', 'call history %s raised %s: %s' % (ops, type(ex).__name__, str(ex)[:200]), {'case': desc, 'ops': list(ops)}))
+    return out
+
+
 # ----------------------------------------------------------------------------- generators
 def rand_kv(rng, p, nspan, scale_mix=False, maxmult=None):
     """open knot vector with dyadic breakpoints and random interior multiplicities <= p"""
@@ -212,9 +320,32 @@ def rand_new_knots(rng, kv, k):
     return out
 
 
-def gen_space(rng, dim, p, n0, nref, disparity, truncate, maxlevels=4):
+def aniso_kvs(rng, dim, p):
+    """tensor-product basis whose directions have EQUAL degree and EQUAL numdofs (4 + p) but different knots:
+    uniform / graded towards 0 / graded towards 1 / three spans with one doubled interior knot (p >= 2); dyadic data"""
+    from pyiga import bspline
+    table = {
+        'uniform': ([0.0, 0.25, 0.5, 0.75, 1.0], [1, 1, 1]),
+        'graded0': ([0.0, 0.125, 0.25, 0.5, 1.0], [1, 1, 1]),
+        'graded1': ([0.0, 0.5, 0.75, 0.875, 1.0], [1, 1, 1]),
+        'repeat_a': ([0.0, 0.25, 0.5, 1.0], [2, 1]),
+        'repeat_b': ([0.0, 0.5, 0.75, 1.0], [1, 2]),
+    }
+    kinds = ['uniform', 'graded0', 'graded1'] + (['repeat_a', 'repeat_b'] if p >= 2 else [])
+    order = [kinds[int(i)] for i in rng.permutation(len(kinds))][:dim]
+    kvs = []
+    for kind in order:
+        brk, mult = table[kind]
+        kv = np.concatenate(([brk[0]] * (p + 1), np.repeat(brk[1:-1], mult), [brk[-1]] * (p + 1)))
+        kvs.append(bspline.KnotVector(kv, p))
+    assert len({k.numdofs for k in kvs}) == 1 and len({tuple(k.kv) for k in kvs}) == dim
+    return tuple(kvs), order
+
+
+def gen_space(rng, dim, p, n0, nref, disparity, truncate, maxlevels=4, kvs=None):
     from pyiga import bspline, hierarchical
-    kvs = tuple(bspline.make_knots(p, 0.0, 1.0, n) for n in n0)
+    if kvs is None:
+        kvs = tuple(bspline.make_knots(p, 0.0, 1.0, n) for n in n0)
     hs = hierarchical.HSpace(kvs, truncate=truncate, disparity=disparity)
     hist = []
     for _ in range(nref):
@@ -262,7 +393,11 @@ def run(ctx):
                 'inserted knot inside a span or on an existing knot (multiplicity kept <= p); prol: kv2 = kv1 + 1..6 such knots, '
                 'kv.refine() and kv.refine(new_knots); hprol: random refinement histories 1-D (2..6 cells) and 2-D (2..3 cells/axis), '
                 'p 1..3, <= 4 levels, disparity 1/2/inf, HB and THB; per space all virtual levels, both truncate flags, rows/restrict variants, '
-                'further-refined fine spaces for prolongate_to, all faces for boundary(); non-trivial = >= 2 levels or >= 1 inserted knot')
+                'further-refined fine spaces for prolongate_to, all faces for boundary(); anisotropic 2-D/3-D spaces whose directions have equal '
+                'degree and equal numdofs but different knots (uniform / graded / doubled interior knot), with the per-axis factors HMesh.P[l][d] '
+                'compared with the exact prolongation of that axis\' knot vectors; call histories on HSplineFunc and level BSplineFuncs '
+                '(evaluate all routes, in-place edits through the caller\'s array and f.coeffs, rebinding, truncate toggles) compared with a '
+                'fresh object and own Cox-de Boor evaluation; non-trivial = >= 2 levels or >= 1 inserted knot')
 
     req, exp, meta = [], [], []
 
@@ -328,6 +463,22 @@ def run(ctx):
             ctx.violation('hprol:generate', 'refinement raised %s' % type(ex).__name__, {'dim': dim, 'p': p, 'n0': n0}, False)
             continue
         spaces.append((hs, describe(dim, p, n0, disparity, truncate, hist)))
+    # anisotropic spaces: equal degree and equal numdofs per direction, different knots (uniform x graded x repeated)
+    naniso = 8 if quick else 80
+    for it in range(naniso):
+        dim = 3 if it % 4 == 3 else 2
+        p = 1 if dim == 3 else int(rng.integers(1, 4))
+        disparity = [1, 2, np.inf][int(rng.integers(0, 3))]
+        truncate = bool(rng.integers(0, 2))
+        try:
+            kvs, order = aniso_kvs(rng, dim, p)
+            hs, hist = gen_space(rng, dim, p, None, int(rng.integers(1, 4)), disparity, truncate, (2 if quick else 3) if dim == 3 else 3, kvs=kvs)
+        except Exception as ex:
+            ctx.violation('hprol:generate', 'refinement raised %s: %s' % (type(ex).__name__, ex), {'dim': dim, 'p': p, 'anisotropic': True}, False)
+            continue
+        d = describe(dim, p, [int(k.numspans) for k in kvs], disparity, truncate, hist)
+        d['anisotropic_knots'] = [k.kv.tolist() for k in kvs]; d['axis_kinds'] = order
+        spaces.append((hs, d)); ctx.count('space anisotropic dim=%d' % dim)
     # the two recorded witnesses always run
     w9 = hierarchical.HSpace((bspline.make_knots(2, 0.0, 1.0, 4),), truncate=True)
     w9.refine({0: [(0,), (1,)]}); w9.refine({1: [(0,), (1,)]})
@@ -343,6 +494,15 @@ def run(ctx):
         if len(ctx.samples) < 5 and L >= 3:
             ctx.sample(desc)
         IA = hs.active_indices()
+        for lv in range(L - 1):
+            for ax in range(hs.dim):
+                k0 = hs.knotvectors(lv)[ax]; k1 = hs.knotvectors(lv + 1)[ax]
+
+                def fT(lv=lv, ax=ax, k1=k1):
+                    C2 = bspline.collocation(k1, k1.greville()).toarray()
+                    return ('ok', hs.hmesh.P[lv][ax].toarray(), float(np.linalg.cond(C2, np.inf)))
+                add('prol %d %s %s' % (k0.p, plist(k0.kv.tolist(), frac), plist(k1.kv.tolist(), frac)), fT,
+                    ('hT', k0.p, k0.kv.tolist(), k1.kv.tolist(), desc, lv, ax))
         for lv in range(L):
             for tr in (False, True):
                 add('repfine %s %d %d 0 0 0' % (sp, lv, tr), lambda lv=lv, tr=tr: hs.represent_fine(lv=lv, truncate=tr),
@@ -386,7 +546,10 @@ def run(ctx):
         n0 = tuple(int(rng.integers(2, 7)) for _ in range(dim)) if dim == 1 else tuple(int(rng.integers(2, 4)) for _ in range(dim))
         disparity = [1, 2, np.inf][int(rng.integers(0, 3))]
         try:
-            c, hist = gen_space(rng, dim, p, n0, int(rng.integers(0, 3)), disparity, False, 3)
+            akvs = None
+            if dim == 2 and it % 8 == 0:
+                akvs, order = aniso_kvs(rng, 2, p); n0 = tuple(int(k.numspans) for k in akvs)
+            c, hist = gen_space(rng, dim, p, n0, int(rng.integers(0, 3)), disparity, False, 3, kvs=akvs)
             f = c.copy()
             hist2 = []
             for _ in range(int(rng.integers(1, 4))):
@@ -400,6 +563,8 @@ def run(ctx):
             ctx.violation('hprol:generate', 'refinement raised %s' % type(ex).__name__, {'dim': dim, 'p': p, 'n0': n0}, False)
             continue
         d = describe(dim, p, n0, disparity, False, hist); d['fine_extra_history'] = hist2
+        if akvs is not None:
+            d['anisotropic_knots'] = [k.kv.tolist() for k in akvs]; ctx.count('pair anisotropic')
         pairs.append((c, f, d))
     # D13 witness
     c13 = hierarchical.HSpace((bspline.make_knots(2, 0.0, 1.0, 6),), disparity=1)
@@ -438,14 +603,15 @@ def run(ctx):
                     bad = 'findspan: implementation %d, model %s' % (e[0], k)
                 elif not ok or d > 4 * EPS:
                     bad = 'knot_insertion matrix differs from the coded Boehm coefficients in exact arithmetic by %.3e (bound 4 eps)' % d
-            elif kind == 'prol':
+            elif kind in ('prol', 'hT'):
                 flag, M = g.split(' ', 1)
                 ok, d, nrm = mat_diff(parse_mat(M), e[1])
                 tol = 1e-15 + 64 * EPS * max(1.0, e[2]) * max(1.0, nrm)
                 if flag != 'ok':
                     bad = 'model: inserting the missing knots does not reproduce kv2'
                 elif not ok or d > tol:
-                    bad = 'prolongation differs from the exact composition of Boehm insertions by %.3e (bound %.2e)' % (d, tol)
+                    bad = '%s differs from the exact composition of Boehm insertions by %.3e (bound %.2e)' % (
+                        'prolongation' if kind == 'prol' else 'HMesh.P[%d][%d] (level %d -> %d, axis %d)' % (m[5], m[6], m[5], m[5] + 1, m[6]), d, tol)
             elif kind in ('repfine', 'repfine-rows', 'trunc1', 'thb2hb', 'hb2thb', 'prolto'):
                 L = m[2] if kind != 'prolto' else m[3].numlevels
                 ok, d, nrm = mat_diff(parse_mat(g), e)
@@ -479,13 +645,13 @@ def run(ctx):
             ndis += 1
             if ndis > 12:
                 continue
-            found = search(ctx, m)
+            found = search(ctx, m, e)
             known = found[0] if found else None
             key = known if known in (KEY_D9, KEY_D13, KEY_D18) else 'c05-corr:' + kind
             if key in ctx.known_keys() and found is not None:
                 nknown[0] += 1
             disagree(key, 'model and implementation disagree on `%s`: %s%s' % (kind, bad, ('; oracle: ' + found[1]) if found else ''),
-                     {'request': r[:3000], 'model': g[:1500], 'case': m[1] if kind not in ('kins', 'prol') else list(m[1:]),
+                     {'request': r[:3000], 'model': g[:1500], 'case': m[4] if kind == 'hT' else (m[1] if kind not in ('kins', 'prol') else list(m[1:])),
                       'oracle': found[1] if found else None, 'stream': 'kins/hprol (drv_c05)'}, found is not None)
     ctx.obligation('correspondence streams kins/prol/hprol: %d requests, model == implementation within the derived bounds' % len(req),
                    ndis - nknown[0] == 0, '%d disagreements, %d of them reproduced by the oracle as listed known findings' % (ndis, nknown[0]))
@@ -508,10 +674,19 @@ def run(ctx):
         if f:
             ctx.violation(f[0] or ('c05-oracle:' + m[0]), f[1], {'case': list(m[1:])}, True)
     # hierarchical transfers
+    nhist = 0; nhist_bad = 0
     for (hs, desc) in hier_cases:
         for f in oracle_space(hs, desc, orng):
             ctx.violation(f[0], f[1], {'case': desc, 'oracle': f[1]}, True)
         n_or += 1
+        if hs.dim <= 2 or hs.mesh(hs.numlevels - 1).numbf <= 1000:
+            nhist += 1
+            for (key, what, rep) in history_checks(hs, desc, orng):
+                nhist_bad += 1
+                ctx.violation(key, what, rep, True)
+    ctx.obligation('call-history stream: %d HSplineFunc/BSplineFunc histories (in-place edits, rebinding, truncate toggles) denote their '
+                   'current data' % nhist, nhist_bad == 0, '%d failing histories' % nhist_bad)
+    ctx.extra['call_histories'] = nhist
     for (c, f, d) in pairs:
         r = oracle_pair(c, f)
         n_or += 1
@@ -544,6 +719,14 @@ def search(ctx, m, e=None):
             tol = 1e-15 * P.shape[1] + 64 * EPS * max(1.0, cond) * (p + 1)
             d = oracle_transfer_1d(kv1, kv2, p, P, tol)
             return (None, 'prolongation: ' + d) if d else None
+        if kind == 'hT':
+            p, kv1, kv2 = m[1], m[2], m[3]
+            if e is None or isinstance(e, str):
+                return None
+            P = e[1]
+            tol = 1e-15 * P.shape[1] + 64 * EPS * max(1.0, e[2]) * (p + 1)
+            d = oracle_transfer_1d(kv1, kv2, p, P, tol)
+            return (None, 'tensor-product prolongation factor of the hierarchical mesh (level %d, axis %d): %s' % (m[5], m[6], d)) if d else None
         if kind == 'prolto':
             return oracle_pair(m[2], m[3])
         if kind in ('repfine', 'repfine-rows', 'trunc1', 'thb2hb', 'hb2thb', 'vprol', 'lvlw', 'bdmap'):
